@@ -216,7 +216,7 @@ def node_bin(ctx, op, a, b):
                 if abs(vb) > 4:
                     b = vb = vb / (1 + vb * vb)
                 a = adapt(ctx, a, 'pos')
-            elif vb < 0 and abs(va) < 0.2:
+            elif vb <= 0 and abs(va) < 0.2:       # 0 ** 0 and negative powers of (almost) zero are singular points
                 a = adapt(ctx, a, 'pos')
         va = float(a.value) if is_obs(a) else float(a)
         if abs(va) > 6:
